@@ -19,7 +19,7 @@ _base = dict(driver="drv_netmapring", harness="netmapring", shards=dict(quick=4,
                           "updateSnapshotCount is quantified over all integers (the method accepts exactly 1..256); the tick theorems assume "
                           "consecutive epochs below 2^32 (four-byte epoch key)"])
 PROPS = {
-    "C08": dict(_base, lean=["NeoFS.Props.C08"], monitors=["C08"]),
+    "C08": dict(_base, lean=["NeoFS.Props.C08"], monitors=["C08"], facts=["consts", "footprint"]),
 }
 NOTE = ("Theorems are about NeoFS/Model/NetmapRing.lean, a branch-by-branch model of NewEpoch / UpdateSnapshotCount / moveSnapshot / "
         "dropNetmap / fourBytesBE / Snapshot / SnapshotByEpoch / ListNodesEpoch / Netmap of contracts/netmap/contract.go, and state that "
